@@ -2,35 +2,44 @@ import ScriggoV.Lemmas.ShowValueSort
 /-! C08 — values shown as JavaScript or JSON are valid literals for the same data.
 Property theorems only; the lemmas are in `Lemmas/ShowValue*.lean`.
 
-Objects: `showInJS` / `showInJSON` (`Model/ShowValue.lean`, hand-written over the kind switches
-and literals regenerated into `Gen/ShowJS.lean` and the escape table of `Gen/EscapeTables.lean`),
-the RFC 8259 decoder / JS literal recogniser `parseJSON` / `parseJS` (`Spec/JSON.lean`), the data
-a value stands for: `absStd` (what encoding/json defines) and `absScriggo` (`Spec/ShowAbs.lean`).
+Objects: `showInJS` / `showInJSON` (`Model/ShowValue.lean`, hand-written over the kind switches,
+literals and Sprintf layouts regenerated into `Gen/ShowJS.lean` and the escape table of
+`Gen/EscapeTables.lean`), the RFC 8259 decoder / JS literal recogniser `parseJSON` / `parseJS`
+(`Spec/JSON.lean`), the ECMA-262 / RFC 3339 date readers (`Spec/DateTime.lean`), the data a value
+stands for: `absStd` (what encoding/json defines) and `absScriggo` (`Spec/ShowAbs.lean`).
 
-Hypotheses of every theorem (`Shaped`, `Lemmas/ShowValue.lean`): the description is one reflect
-can give; **strconv.FormatFloat(f,'f',-1,bits) of a finite float is an RFC 8259 number** (the
-harness checks this on every run); what `JS()`/`JSON()` of an envelope type returns is itself a
-text for some data; formatted times have no quote/backslash/control byte; no non-nil
-`unsafe.Pointer`; in JS the name of an unrepresentable type has no `*/`. -/
+Hypotheses (`Shaped`, `Lemmas/ShowValue.lean`): the description is one reflect can give (kinds
+fit, lengths agree, every map key is of a kind toString has a case for); **strconv.FormatFloat
+(f,'f',-1,bits) of a finite float is an RFC 8259 number and of NaN is `NaN`** (the harness checks
+this on every run); what `JS()`/`JSON()` of an envelope type returns is itself a text for some
+data; no non-nil `unsafe.Pointer`; in JS a time's year is within ±999999 and the name of an
+unrepresentable type has no `*/`. -/
 namespace ScriggoV.ShowValue
-open ScriggoV ScriggoV.JSON ScriggoV.Gen.ShowJS
+open ScriggoV ScriggoV.JSON ScriggoV.Gen.ShowJS ScriggoV.DateTime
+
+/-- no NaN, no ±Inf -/
+abbrev finiteFloats (v : GoVal) : Bool := floatsOK .json v
+/-- no ±Inf (NaN is an expression in JavaScript) -/
+abbrev noInfFloats (v : GoVal) : Bool := floatsOK .js v
 
 /-! ## the output is a literal for the value's data -/
 
-/-- **C08, both contexts.** For every well-shaped value without non-finite floats the function
-does not panic and its output is one JSON text (`m = .json`) / one JavaScript literal expression
-(`m = .js`) that the decoder of `Spec/JSON.lean` takes to `absScriggo m v`: null for nil,
-booleans, numbers with the digits Go prints, strings with every byte back (escapes undone),
-`[]byte` as base64, arrays in order, struct members in field order under their tag names with
-`-`, unexported and omitted-empty fields left out, map members sorted by key, `undefined` and
-`new Date("…")` in JS. -/
-theorem show_decodes (m : Mode) (v : GoVal) (hs : Shaped m v) (hf : finiteFloats v = true) :
+/-- **C08, both contexts.** For every well-shaped value (JSON: without non-finite floats; JS:
+without ±Inf) the function does not panic and its output is one JSON text (`m = .json`) / one
+JavaScript literal expression (`m = .js`) that the decoder of `Spec/JSON.lean` takes to
+`absScriggo m v`: null for nil, booleans, numbers with the digits Go prints, strings with every
+byte back (escapes undone), `[]byte` as base64, arrays in order (a slice of a defined byte type
+among them), struct members in field order under their tag names with `-`, unexported and
+omitted-empty fields left out and embedded structs as members named after their type, map
+members sorted by the key as the key loop spells it (`String()`, decimal integers …), a time as
+RFC 3339 string / `new Date("…")`, `undefined` for unrepresentable kinds in JS. -/
+theorem show_decodes (m : Mode) (v : GoVal) (hs : Shaped m v) (hf : floatsOK m v = true) :
     ∃ s, showV m v = .ok s ∧ parseTop m.isJS s = some (absScriggo m v) := by
   obtain ⟨s, h1, h2⟩ := showV_parses m v hs hf
   exact ⟨s, h1, h2.top⟩
 
 /-- the same wherever a value may stand: inside an array or object, before `,` `]` `}` -/
-theorem show_decodes_in_context (m : Mode) (v : GoVal) (hs : Shaped m v) (hf : finiteFloats v = true) :
+theorem show_decodes_in_context (m : Mode) (v : GoVal) (hs : Shaped m v) (hf : floatsOK m v = true) :
     ∃ s, showV m v = .ok s ∧ ParsesTo m.isJS s (absScriggo m v) :=
   showV_parses m v hs hf
 
@@ -39,8 +48,15 @@ theorem showInJSON_decodes (v : GoVal) (hs : Shaped .json v) (hf : finiteFloats 
     ∃ s, showInJSON v = .ok s ∧ parseJSON s = some (absScriggo .json v) :=
   show_decodes .json v hs hf
 
-/-- JavaScript context: recognised as a literal expression, and it denotes the data -/
-theorem showInJS_recognised (v : GoVal) (hs : Shaped .js v) (hf : finiteFloats v = true) :
+/-- **Full statement** of the JavaScript half: every value renders as one literal expression. -/
+def FullStatementJS : Prop :=
+  ∀ v, Shaped .js v → ∃ s, showInJS v = .ok s ∧ recogniseJS s = true
+
+/-- **C08, JavaScript, partial**: recognised as one literal expression that denotes the data.
+Missing from `FullStatementJS`: `noInfFloats` — `+Inf`/`-Inf` are written as such
+(`infinity_is_not_js` below; finding `nonfinite-float-not-a-literal`). NaN, times, embedded
+structs, Stringer keys, defined byte slices are covered. -/
+theorem showInJS_recognised_partial (v : GoVal) (hs : Shaped .js v) (hf : noInfFloats v = true) :
     ∃ s, showInJS v = .ok s ∧ recogniseJS s = true ∧ parseJS s = some (absScriggo .js v) := by
   obtain ⟨s, h1, h2⟩ := show_decodes .js v hs hf
   refine ⟨s, h1, ?_, h2⟩
@@ -49,7 +65,7 @@ theorem showInJS_recognised (v : GoVal) (hs : Shaped .js v) (hf : finiteFloats v
   rw [this]; rfl
 
 /-- neither function panics on such a value -/
-theorem show_no_panic (m : Mode) (v : GoVal) (hs : Shaped m v) (hf : finiteFloats v = true) :
+theorem show_no_panic (m : Mode) (v : GoVal) (hs : Shaped m v) (hf : floatsOK m v = true) :
     ∀ f, showV m v ≠ .error f := by
   obtain ⟨s, h1, _⟩ := show_decodes m v hs hf
   intro f h; rw [h1] at h; cases h
@@ -57,109 +73,228 @@ theorem show_no_panic (m : Mode) (v : GoVal) (hs : Shaped m v) (hf : finiteFloat
 /-! ## the same data encoding/json would produce -/
 
 /-- **Full statement** of the JSON half of the property: the output decodes to the data
-encoding/json defines (`absStd`: tag names, `-`, `omitempty`, the `string` option, base64 for
-`[]byte`, `null` for every nil, sorted keys). -/
+encoding/json defines (`absStd`: tag names, `-`, `omitempty`, `omitzero`, the `string` option,
+promoted fields of embedded structs, base64 for every slice of bytes, `null` for every nil,
+sorted keys, RFC 3339 with nanoseconds). -/
 def FullStatement : Prop :=
   ∀ v, Shaped .json v → ∃ s, showInJSON v = .ok s ∧ parseJSON s = some (absStd .json v)
 
-/-- **C08, JSON, partial.** What is missing from `FullStatement`, each part refuted below by a
-witness that is replayed on the real library on every run (known_findings.json):
-* `finiteFloats v`: NaN/±Inf are written as `NaN`, `+Inf`, `-Inf` (`nonfinite-float-not-a-literal`);
-* `stdSame v`: no field carries the `,string` tag option, which is ignored
-  (`json-string-option-ignored`), and no `[]byte` is nil, which is shown as `""` instead of
-  `null` (`nil-byte-slice-shown-as-empty-string`).
-Outside the model (harness only): embedded structs, `omitzero`, defined byte-slice types. -/
+/-- **C08, JSON, partial.** What is missing from `FullStatement`, each clause refuted below by
+a witness that is replayed on the real library on every run (known_findings.json):
+* `finiteFloats v`: NaN/±Inf are written as `NaN`, `+Inf`, `-Inf`;
+* `stdSame .json v`: no field has the `,string` or `,omitzero` option (both ignored), no
+  embedded struct whose fields encoding/json promotes (shown as a member), no nil `[]byte`
+  (shown as `""`), no non-nil slice of a defined byte type (shown as an array), no time with a
+  fraction of a second (dropped).
+Not modelled in `absStd`: name conflicts between promoted fields, `,string` on strings and
+pointers, encoding/json's own treatment of Stringer / bool / float map keys (it rejects them). -/
 theorem showInJSON_is_encoding_json_data_partial (v : GoVal) (hs : Shaped .json v)
-    (hf : finiteFloats v = true) (hd : stdSame v = true) :
+    (hf : finiteFloats v = true) (hd : stdSame .json v = true) :
     ∃ s, showInJSON v = .ok s ∧ parseJSON s = some (absStd .json v) := by
   obtain ⟨s, h1, h2⟩ := showInJSON_decodes v hs hf
   refine ⟨s, h1, ?_⟩
   rw [h2]
   unfold absScriggo absStd
-  rw [abs_cfg .json ⟨false, false⟩ ⟨true, true⟩ v hd]
+  rw [abs_std .json v hd]
 
 /-- the same for JavaScript -/
 theorem showInJS_is_encoding_json_data_partial (v : GoVal) (hs : Shaped .js v)
-    (hf : finiteFloats v = true) (hd : stdSame v = true) :
+    (hf : noInfFloats v = true) (hd : stdSame .js v = true) :
     ∃ s, showInJS v = .ok s ∧ parseJS s = some (absStd .js v) := by
-  obtain ⟨s, h1, _, h2⟩ := showInJS_recognised v hs hf
+  obtain ⟨s, h1, _, h2⟩ := showInJS_recognised_partial v hs hf
   refine ⟨s, h1, ?_⟩
   rw [h2]
   unfold absScriggo absStd
-  rw [abs_cfg .js ⟨false, false⟩ ⟨true, true⟩ v hd]
+  rw [abs_std .js v hd]
+
+/-! ### the witnesses -/
 
 /-- `[]float64{NaN}` -/
-def witnessNaN : GoVal := .slice false [.float .float64 .nan false [0x4E, 0x61, 0x4E]]
+def witnessNaN : GoVal := .slice false [.float .float64 .nan false kwNaN]
+/-- `[]float64{+Inf}` -/
+def witnessInf : GoVal := .slice false [.float .float64 .posInf false [0x2B, 0x49, 0x6E, 0x66]]
 /-- `struct{ B bool "json:\"b,string\"" }{true}` -/
 def witnessStringOpt : GoVal :=
-  .struct [⟨[0x42], [0x62, 0x2C, 0x73, 0x74, 0x72, 0x69, 0x6E, 0x67], true⟩] [.bool true]
+  .struct [⟨[0x42], [0x62, 0x2C, 0x73, 0x74, 0x72, 0x69, 0x6E, 0x67], true, false⟩] [.bool true]
+/-- `struct{ Z bool "json:\"z,omitzero\"" }{false}` -/
+def witnessOmitzero : GoVal :=
+  .struct [⟨[0x5A], [0x7A, 0x2C, 0x6F, 0x6D, 0x69, 0x74, 0x7A, 0x65, 0x72, 0x6F], true, false⟩] [.bool false]
+/-- `struct{ Inner; C bool }{Inner{A: true}, false}` with `type Inner struct{ A bool }` -/
+def witnessEmbedded : GoVal :=
+  .struct [⟨[0x49, 0x6E, 0x6E, 0x65, 0x72], [], true, true⟩, ⟨[0x43], [], true, false⟩]
+    [.struct [⟨[0x41], [], true, false⟩] [.bool true], .bool false]
 /-- `[]byte(nil)` -/
 def witnessNilBytes : GoVal := .bytes true []
+/-- `NB{1}` with `type NB []byte` -/
+def witnessNamedBytes : GoVal := .nbytes false [1]
+/-- `time.Date(2000, 1, 1, 0, 0, 0, 500000000, time.UTC)` -/
+def witnessFraction : GoVal := .time ⟨2000, 1, 1, 0, 0, 0, 500000000, true, 0⟩
 
-theorem witnessNaN_shaped : Shaped .json witnessNaN := by
-  simp [witnessNaN, Shaped, ShapedL, KindOK, isFloatKind]
+theorem witnessNaN_shaped : Shaped .json witnessNaN ∧ Shaped .js witnessNaN := by
+  constructor <;> simp [witnessNaN, Shaped, ShapedL, KindOK, isFloatKind]
+theorem witnessInf_shaped : Shaped .js witnessInf := by
+  simp [witnessInf, Shaped, ShapedL, KindOK, isFloatKind]
 
-/-- `[]float64{NaN}` renders `[NaN]`, which is not JSON (DESIGN §8 row 19) -/
+/-- `[]float64{NaN}` renders `[NaN]`, which is not JSON (DESIGN §8 row 19) … -/
 theorem nan_is_not_json :
     showInJSON witnessNaN = .ok [0x5B, 0x4E, 0x61, 0x4E, 0x5D] ∧
     parseJSON [0x5B, 0x4E, 0x61, 0x4E, 0x5D] = none := by
   constructor <;> rfl
 
-/-- the full statement is false of the code today -/
+/-- … but is a JavaScript expression (covered by `showInJS_recognised_partial`) -/
+theorem nan_is_js : noInfFloats witnessNaN = true ∧ recogniseJS [0x5B, 0x4E, 0x61, 0x4E, 0x5D] = true := by
+  constructor <;> rfl
+
+/-- `[]float64{+Inf}` renders `[+Inf]`, which is not a JavaScript literal expression -/
+theorem infinity_is_not_js :
+    showInJS witnessInf = .ok [0x5B, 0x2B, 0x49, 0x6E, 0x66, 0x5D] ∧
+    recogniseJS [0x5B, 0x2B, 0x49, 0x6E, 0x66, 0x5D] = false := by
+  constructor <;> rfl
+
+/-- the full statements are false of the code today -/
 theorem fullStatement_false : ¬ FullStatement := by
   intro h
-  obtain ⟨s, h1, h2⟩ := h witnessNaN witnessNaN_shaped
+  obtain ⟨s, h1, h2⟩ := h witnessNaN witnessNaN_shaped.1
   rw [nan_is_not_json.1] at h1
   cases h1
   rw [nan_is_not_json.2] at h2
+  cases h2
+
+theorem fullStatementJS_false : ¬ FullStatementJS := by
+  intro h
+  obtain ⟨s, h1, h2⟩ := h witnessInf witnessInf_shaped
+  rw [infinity_is_not_js.1] at h1
+  cases h1
+  rw [infinity_is_not_js.2] at h2
   cases h2
 
 /-- the `,string` option is ignored: `{"b":true}` where encoding/json's data is `{"b":"true"}`
 (DESIGN §8 row 32) -/
 theorem string_option_ignored :
     showInJSON witnessStringOpt = .ok [0x7B, 0x22, 0x62, 0x22, 0x3A, 0x74, 0x72, 0x75, 0x65, 0x7D] ∧
-    parseJSON [0x7B, 0x22, 0x62, 0x22, 0x3A, 0x74, 0x72, 0x75, 0x65, 0x7D]
-      = some (.obj [([0x62], .bool true)]) ∧
-    absStd .json witnessStringOpt = .obj [([0x62], .str kwTrue)] := by
-  refine ⟨rfl, rfl, rfl⟩
+    absScriggo .json witnessStringOpt = .obj [([0x62], .bool true)] ∧
+    absStd .json witnessStringOpt = .obj [([0x62], .str kwTrue)] := ⟨rfl, rfl, rfl⟩
+
+/-- the `,omitzero` option is ignored: `{"z":false}` where encoding/json's data is `{}` -/
+theorem omitzero_ignored :
+    showInJSON witnessOmitzero = .ok [0x7B, 0x22, 0x7A, 0x22, 0x3A, 0x66, 0x61, 0x6C, 0x73, 0x65, 0x7D] ∧
+    absScriggo .json witnessOmitzero = .obj [([0x7A], .bool false)] ∧
+    absStd .json witnessOmitzero = .obj [] := ⟨rfl, rfl, rfl⟩
+
+/-- an embedded struct is a member named after its type: `{"Inner":{"A":true},"C":false}` where
+encoding/json's data is `{"A":true,"C":false}` -/
+theorem embedded_not_flattened :
+    absScriggo .json witnessEmbedded
+      = .obj [([0x49, 0x6E, 0x6E, 0x65, 0x72], .obj [([0x41], .bool true)]), ([0x43], .bool false)] ∧
+    absStd .json witnessEmbedded = .obj [([0x41], .bool true), ([0x43], .bool false)] := ⟨rfl, rfl⟩
 
 /-- a nil `[]byte` is shown as `""` where encoding/json's data is `null` (DESIGN §8 row 32) -/
 theorem nil_bytes_not_null :
     showInJSON witnessNilBytes = .ok [0x22, 0x22] ∧
-    parseJSON [0x22, 0x22] = some (.str []) ∧ absStd .json witnessNilBytes = .null := by
-  refine ⟨rfl, rfl, rfl⟩
+    absScriggo .json witnessNilBytes = .str [] ∧ absStd .json witnessNilBytes = .null := ⟨rfl, rfl, rfl⟩
+
+/-- a slice of a defined byte type is shown as an array of numbers, not base64 -/
+theorem named_bytes_as_array :
+    showInJSON witnessNamedBytes = .ok [0x5B, 0x31, 0x5D] ∧
+    absStd .json witnessNamedBytes = .str [0x41, 0x51, 0x3D, 0x3D] := by
+  constructor
+  · rw [showInJSON, showV]; simp [Mode.branch, jsonBranch, Mode.lits, jsonLits, joinElems, natDigits, digitChar]
+  · rfl
+
+/-- JSON drops the fraction of a second that encoding/json (RFC3339Nano) keeps -/
+theorem time_fraction_dropped :
+    absScriggo .json witnessFraction ≠ absStd .json witnessFraction := by
+  unfold absScriggo absStd witnessFraction
+  rw [abs, abs]
+  simp [Mode.isJS, fmtRFC3339Nano, fmtRFC3339]
 
 /-! ## map keys -/
 
-/-- **keys are emitted sorted; duplicates after stringification are all kept.** The data of a
-non-nil map is an object whose keys are the stringified keys in ascending byte order — a
-permutation of them, so a key that occurs `n` times among the stringified keys (two `Stringer`
-keys with the same `String()`) occurs `n` times, next to each other. With `show_decodes` this
-is a statement about the emitted text. -/
-theorem map_keys_sorted (m : Mode) (ks : List Bytes) (vs : List GoVal) (hl : ks.length = vs.length) :
-    ∃ kvs, absScriggo m (.map false ks vs) = .obj kvs ∧ SortedKeys kvs ∧
-      (kvs.map (·.1)).Perm ks ∧ ∀ k, (kvs.map (·.1)).count k = ks.count k := by
-  refine ⟨sortByKey (ks.zip (absList cfgS m vs)), ?_, sorted_sortByKey _, ?_, ?_⟩
-  · unfold absScriggo; rw [abs]; simp
-  · have h1 := (perm_sortByKey (ks.zip (absList cfgS m vs))).map (·.1)
-    have hlen : ∀ (l : List GoVal), (absList cfgS m l).length = l.length := by
-      intro l; induction l with
-      | nil => simp [absList]
-      | cons a r ih => simp [absList, ih]
-    have h2 : (ks.zip (absList cfgS m vs)).map (·.1) = ks := by
-      rw [List.map_fst_zip]; rw [hlen]; omega
-    rw [h2] at h1; exact h1
-  · intro k
-    have h1 := (perm_sortByKey (ks.zip (absList cfgS m vs))).map (·.1)
-    have hlen : ∀ (l : List GoVal), (absList cfgS m l).length = l.length := by
-      intro l; induction l with
-      | nil => simp [absList]
-      | cons a r ih => simp [absList, ih]
-    have h2 : (ks.zip (absList cfgS m vs)).map (·.1) = ks := by
-      rw [List.map_fst_zip]; rw [hlen]; omega
-    rw [h2] at h1; exact h1.count_eq k
+/-- **keys are emitted sorted; duplicates after stringification are all kept.** For a non-nil map
+whose keys the key loop can stringify, the emitted text decodes to an object whose keys are the
+keys as the loop spells them (`keySpec`: `String()` for Stringers, decimal integers,
+`true`/`false`, …) in ascending byte order — a permutation of them, so a spelling that occurs `n`
+times (two Stringer keys with the same `String()`) occurs `n` times, next to each other. -/
+theorem map_keys_sorted (m : Mode) (ks : List GoKey) (vs : List GoVal)
+    (hs : Shaped m (.map false ks vs)) (hf : floatsOK m (.map false ks vs) = true) :
+    ∃ s kvs, showV m (.map false ks vs) = .ok s ∧ parseTop m.isJS s = some (.obj kvs) ∧
+      SortedKeys kvs ∧ (kvs.map (·.1)).Perm (ks.map keySpec) ∧
+      ∀ k, (kvs.map (·.1)).count k = (ks.map keySpec).count k := by
+  obtain ⟨s, h1, h2⟩ := show_decodes m _ hs hf
+  have hl : ks.length = vs.length := by
+    rw [Shaped] at hs
+    rcases hs with hs | hs
+    · exact absurd hs (by simp)
+    · exact hs.1
+  have hlen : ∀ (l : List GoVal), (absList false m l).length = l.length := by
+    intro l; induction l with
+    | nil => simp [absList]
+    | cons a r ih => simp [absList, ih]
+  have hk : ((ks.map keySpec).zip (absList false m vs)).map (·.1) = ks.map keySpec := by
+    rw [List.map_fst_zip]; rw [hlen, List.length_map]; omega
+  have hp := (perm_sortByKey ((ks.map keySpec).zip (absList false m vs))).map (·.1)
+  rw [hk] at hp
+  refine ⟨s, sortByKey ((ks.map keySpec).zip (absList false m vs)), h1, ?_, sorted_sortByKey _, hp,
+    fun k => hp.count_eq k⟩
+  rw [h2]; unfold absScriggo; rw [abs]; simp
 
-/-! ## struct tags -/
+/-- the key loop never fails on such keys and spells them as specified -/
+theorem map_key_spelling (ks : List GoKey) (h : ks.all keyOK = true) :
+    keyStrings ks = .ok (ks.map keySpec) := keyStrings_eq ks h
+
+/-! ## time.Time -/
+
+/-- **JavaScript: the text is `new Date("` + the ECMA-262 date-time string + `")`** for every
+zone and offset, whenever showTimeInJS does not panic. -/
+theorem js_date_text (t : TimeRec) (h1 : jsYearMin ≤ t.year) (h2 : t.year ≤ jsYearMax) :
+    showInJS (.time t) = .ok (kwNewDate ++ ecmaDate t ++ [0x22, 0x29]) := by
+  rw [showInJS, showV]
+  simp only [Mode.isJS, if_true]
+  exact showTimeInJS_eq t h1 h2
+
+/-- **the Date constructor's argument denotes the value**: read with the ECMA-262 date-time
+string format it gives back the calendar fields, the milliseconds and the offset in minutes … -/
+theorem js_date_fields (t : TimeRec) (h : TimeOK t) : parseECMA (ecmaDate t) = some (ecmaFields t) :=
+  parseECMA_ecmaDate t h
+
+/-- … which is the value's own offset — **the same instant**, to the millisecond — when the
+offset is a whole number of minutes and a zone named UTC has offset 0. Both hypotheses are
+forced by the code and refuted below (findings `js-date-offset-seconds-dropped`,
+`js-date-zone-named-utc-shown-as-z`). -/
+theorem js_date_same_instant_partial (t : TimeRec) (hutc : t.utc = true → t.offset = 0)
+    (hmin : t.offset % 60 = 0) : (ecmaFields t).offsetMin * 60 = t.offset := by
+  unfold ecmaFields
+  by_cases hu : t.utc = true
+  · simp [hu, hutc hu]
+  · have hu' : t.utc = false := by simpa using hu
+    simp only [hu', Bool.false_eq_true, if_false]
+    rw [tdiv60]
+    split <;> omega
+
+/-- full statement for dates, false: a zone that is only *named* UTC, an offset with seconds -/
+def DateFullStatement : Prop := ∀ t, TimeOK t → (ecmaFields t).offsetMin * 60 = t.offset
+
+theorem dateFullStatement_false : ¬ DateFullStatement := by
+  intro h
+  have := h ⟨2000, 1, 1, 0, 0, 0, 0, true, 3600⟩ (by constructor <;> decide)
+  revert this; decide
+
+theorem offset_seconds_dropped :
+    (ecmaFields ⟨2000, 1, 1, 0, 0, 0, 0, false, -2670⟩).offsetMin * 60 ≠ -2670 := by decide
+
+/-- the sign of a negative offset shorter than an hour is kept (the defect fixed in
+fixes/C08-js-date-negative-subhour-offset.md is excluded by `js_date_fields`; an instance): -/
+example : ecmaDate ⟨2058, 8, 17, 20, 58, 43, 0, false, -2700⟩
+    = [0x32,0x30,0x35,0x38,0x2D,0x30,0x38,0x2D,0x31,0x37,0x54,0x32,0x30,0x3A,0x35,0x38,0x3A,0x34,0x33,0x2E,
+       0x30,0x30,0x30,0x2D,0x30,0x30,0x3A,0x34,0x35] := by decide
+
+/-- **JSON: the text of a time is an RFC 3339 date-time for the value** (years 0..9999) -/
+theorem json_time_rfc3339 (t : TimeRec) (h : TimeOK t) (hy : 0 ≤ t.year ∧ t.year ≤ 9999) :
+    showInJSON (.time t) = .ok ([0x22] ++ fmtRFC3339 t ++ [0x22]) ∧
+    parseRFC3339 (fmtRFC3339 t) = some (rfcFields t) :=
+  ⟨rfl, parseRFC3339_fmt t h hy⟩
+
+/-! ## struct tags, strings -/
 
 /-- `parseTagValue` never faults (its slices are always in range) and returns the name before
 the first comma and whether `omitempty` is one of the options after it -/
@@ -174,21 +309,21 @@ theorem string_body_round_trip (s rest : Bytes) :
 
 /-! ## non-vacuity -/
 
-/-- `struct{ A []any "json:\"a,omitempty\""; B float64 }{ {nil, "<", []byte{1}}, 1.5 }` in a map
-under key `k`, behind a pointer -/
+/-- a pointer to `map[Stringer]struct{ A []any "json:\"a,omitempty\""; B float64; T time.Time; Emb }`
+with one entry: `A = {nil, "<", []byte{1}}`, `B = 1.5`, a time at -00:45, an embedded struct -/
 def sample : GoVal :=
-  .ptr false false (.map false [[0x6B]] [
-    .struct [⟨[0x41], [0x61, 0x2C, 0x6F, 0x6D, 0x69, 0x74, 0x65, 0x6D, 0x70, 0x74, 0x79], true⟩, ⟨[0x42], [], true⟩]
+  .ptr false false (.map false [.stringer [0x6B]] [
+    .struct [⟨[0x41], [0x61, 0x2C, 0x6F, 0x6D, 0x69, 0x74, 0x65, 0x6D, 0x70, 0x74, 0x79], true, false⟩,
+             ⟨[0x42], [], true, false⟩, ⟨[0x54], [], true, false⟩, ⟨[0x45, 0x6D, 0x62], [], true, true⟩]
       [.slice false [.iface .nil, .iface (.str [0x3C]), .iface (.bytes false [1])],
-       .float .float64 .finite false [0x31, 0x2E, 0x35]]])
+       .float .float64 .finite false [0x31, 0x2E, 0x35],
+       .time ⟨2058, 8, 17, 20, 58, 43, 0, false, -2700⟩,
+       .struct [⟨[0x58], [], true, false⟩] [.bool true]]])
 
-example : Shaped .json sample ∧ Shaped .js sample ∧ finiteFloats sample = true ∧ stdSame sample = true := by
+example : Shaped .json sample ∧ Shaped .js sample ∧ finiteFloats sample = true ∧ noInfFloats sample = true := by
   refine ⟨?_, ?_, by decide, by decide⟩ <;>
-    simp [sample, Shaped, ShapedL, KindOK, isFloatKind] <;> decide
+    simp [sample, Shaped, ShapedL, KindOK, isFloatKind, keyOK, Mode.isJS, jsYearMin, jsYearMax] <;> decide
 
--- {"k":{"a":[null,"<","AQ=="],"B":1.5}}
-example : showInJSON sample = .ok
-    [0x7B,0x22,0x6B,0x22,0x3A,0x7B,0x22,0x61,0x22,0x3A,0x5B,0x6E,0x75,0x6C,0x6C,0x2C,0x22,0x5C,0x75,0x30,0x30,0x33,0x63,0x22,0x2C,
-     0x22,0x41,0x51,0x3D,0x3D,0x22,0x5D,0x2C,0x22,0x42,0x22,0x3A,0x31,0x2E,0x35,0x7D,0x7D] := by rfl
+example : TimeOK ⟨2058, 8, 17, 20, 58, 43, 0, false, -2700⟩ := by constructor <;> decide
 
 end ScriggoV.ShowValue
